@@ -9,6 +9,10 @@
 //! `<base>` = `none` | `<type>:<ecdh,…|->:<commitment,…|->`; `c08_open <v> <S> <R> <n> <ecdh> <commitment>` -> `none` |
 //! `ok <amount> <mask>`; `c07_scenario <seed> <ranges×4> <ver> <rct> <main> <extra> <T> <fill> <out>…` -> `<h> <scan result>`
 //! (grammar: see Drv/C07.lean; the transaction is built here by `build`, `<h>` = Keccak(prefix ‖ base)[0..8]).
+//! Entries end with `:<output key>/<view tag|->/<clear amount>` (`OwnedTxOut::out()`); `c08_open` prints the recomputed commitment
+//! (`Opening::commitment`, compressed) as third field. `c07_check <v> <S> <ranges×4> <n> <P> <R>` -> `none` | `<major>/<minor>`:
+//! `SubKeyChecker::check` and `check_with_key_generator` on a checker built by `SubKeyChecker::new` (`CHECK-DIFFER` if the two
+//! lookup functions disagree).
 #![allow(non_snake_case)]
 use crate::common::*;
 use curve25519_dalek::constants::{ED25519_BASEPOINT_POINT as G, EIGHT_TORSION};
@@ -62,10 +66,11 @@ fn render(r: Result<Vec<OwnedTxOut>, TxError>) -> String {
         Ok(v) => {
             let mut s = format!("ok {}", v.len());
             for o in &v {
-                s += &format!(" {}:{}/{}:{}:{}:{}:{}", o.index(), o.sub_index().major, o.sub_index().minor, hex(o.tx_pubkey().as_bytes()),
+                let (ok, ot) = match &o.out().target { TxOutTarget::ToKey { key } => (hex(key), "-".to_string()), TxOutTarget::ToTaggedKey { key, view_tag } => (hex(key), hex(&[*view_tag])) };
+                s += &format!(" {}:{}/{}:{}:{}:{}:{}:{}/{}/{}", o.index(), o.sub_index().major, o.sub_index().minor, hex(o.tx_pubkey().as_bytes()),
                     o.amount().map(|a| a.as_pico().to_string()).unwrap_or("none".into()),
                     o.blinding_factor().map(|m| hex(m.as_bytes())).unwrap_or("none".into()),
-                    o.commitment().map(|c| hex(c.compress().as_bytes())).unwrap_or("none".into()));
+                    o.commitment().map(|c| hex(c.compress().as_bytes())).unwrap_or("none".into()), ok, ot, o.out().amount.0);
             }
             s
         }
@@ -115,7 +120,7 @@ fn base_text(b: &Option<RctSigBase>) -> String {
 #[derive(Clone, Copy, PartialEq)]
 enum DestK { Primary, Foreign, Sub(u32, u32) }
 #[derive(Clone, Copy)]
-struct Real { dest: DestK, own: bool, tors: usize, tag: char, shift: u64, amount: u64, corrupt: char }
+struct Real { dest: DestK, own: bool, tors: usize, both: Option<usize>, tag: char, shift: u64, amount: u64, corrupt: char }
 #[derive(Clone, Copy)]
 enum OutD { Fill, Unrelated, Real(Real) }
 struct Hdr { seed: Vec<u8>, r: [u32; 4], ver: u64, rct: Option<u8>, main_sub: Option<(u32, u32)>, main_tors: usize, extra: Vec<char>, T: EdwardsPoint, fill: [u8; 32] }
@@ -129,13 +134,26 @@ fn parse_out(s: &str) -> Option<Vec<OutD>> {
     if p.len() == 2 && p[0] == "g" { return Some(vec![OutD::Fill; p[1].parse().ok()?]); }
     if p.len() < 5 { return None; }
     let dest = match p[0] { "P" => DestK::Primary, "F" => DestK::Foreign, d if d.starts_with('S') => { let (i, j) = parse_idx(&d[1..])?; DestK::Sub(i, j) } _ => return None };
-    let (own, tors) = match p[1] { "m" => (false, 0), "a" => (true, 0), d if d.len() == 2 && d.starts_with('a') => (true, d[1..].parse().ok()?), _ => return None };
-    Some(vec![OutD::Real(Real { dest, own, tors, tag: p[2].chars().next()?, shift: p[3].parse().ok()?, amount: p[4].parse().ok()?,
+    let (own, tors, both) = match p[1] { "m" => (false, 0, None), "a" => (true, 0, None), d if d.len() == 2 && d.starts_with('a') => (true, d[1..].parse().ok()?, None),
+        d if d.len() == 2 && d.starts_with('b') => (false, 0, Some(d[1..].parse().ok()?)), _ => return None };
+    Some(vec![OutD::Real(Real { dest, own, tors, both, tag: p[2].chars().next()?, shift: p[3].parse().ok()?, amount: p[4].parse().ok()?,
         corrupt: if p.len() == 6 { p[5].chars().next()? } else { '-' } })])
 }
 fn sc(seed: &[u8], c: char, i: u32) -> Scalar { hs(&cat(&[seed, &[c as u8], &i.to_le_bytes()])) }
 fn torsion(T: &EdwardsPoint, k: usize, X: EdwardsPoint) -> EdwardsPoint { let mut r = X; for _ in 0..k { r += T; } r }
 fn flip0<const N: usize>(mut b: [u8; N]) -> [u8; N] { b[0] ^= 1; b }
+/// the tag byte written for tag letter `c` given the right tag: `t` right, `n` absent, wrong ones `w` +1, `v` -1, `x` ^0x80, `y` ^0x01,
+/// `z` 0 (128 if the right tag is 0), `f` 255 (127 if the right tag is 255)
+fn tag_byte(c: char, right: u8) -> Option<u8> {
+    match c { 'n' => None, 'w' => Some(right.wrapping_add(1)), 'v' => Some(right.wrapping_sub(1)), 'x' => Some(right ^ 0x80), 'y' => Some(right ^ 0x01),
+        'z' => Some(if right == 0 { 128 } else { 0 }), 'f' => Some(if right == 255 { 127 } else { 255 }), _ => Some(right) }
+}
+fn tag_is_wrong(c: char) -> bool { matches!(c, 'w' | 'v' | 'x' | 'y' | 'z' | 'f') }
+/// the point of the main transaction key the sender publishes: r·G or r·S'(main_sub), plus main_tors·T
+fn main_point(h: &Hdr, v: &Scalar, S: &EdwardsPoint) -> EdwardsPoint {
+    let base = match h.main_sub { None => G, Some((i, j)) => dest_at(v, S, i, j).spend };
+    torsion(&h.T, h.main_tors, sc(&h.seed, 'r', 0) * base)
+}
 impl Hdr {
     fn legacy(&self) -> bool { matches!(self.rct, Some(1..=3)) }
     fn compact(&self) -> bool { matches!(self.rct, Some(4..=6)) }
@@ -160,10 +178,13 @@ fn build_out(h: &Hdr, v: &Scalar, S: &EdwardsPoint, pos: u32, o: &OutD) -> Built
             let n = pos as u64 + r.shift;
             let D = derivation(&secret, &d.view);
             let k = deriv_scalar(&D, n);
-            let key = enc(&(k * G + d.spend));
+            // corrupt `t`: the honest one-time key plus the small-order point T — another key, must not be reported
+            let key = enc(&if r.corrupt == 't' { k * G + d.spend + h.T } else { k * G + d.spend });
             let right = view_tag(&D, n);
-            let tag = match r.tag { 'n' => None, 'w' => Some(right.wrapping_add(1)), _ => Some(right) };
-            let add_key = if r.own { enc(&torsion(&h.T, r.tors, if d.sub { secret * d.spend } else { secret * G })) } else { unrelated_add() };
+            let tag = tag_byte(r.tag, right);
+            // deriv `b<k>`: main secret, and the additional key at this position is the main key plus k·T (same derivation, k > 0: other bytes)
+            let add_key = if r.own { enc(&torsion(&h.T, r.tors, if d.sub { secret * d.spend } else { secret * G })) }
+                else if let Some(k) = r.both { enc(&torsion(&h.T, k, main_point(h, v, S))) } else { unrelated_add() };
             let y = if h.compact() { compact_mask(&k) } else { sc(&h.seed, 'y', pos) };
             let C = enc(&commitment(&y, r.amount));
             let ecdh = if h.legacy() {
@@ -174,9 +195,9 @@ fn build_out(h: &Hdr, v: &Scalar, S: &EdwardsPoint, pos: u32, o: &OutD) -> Built
                 Some(EcdhInfo::Bulletproof { amount: Hash8(if r.corrupt == 'e' || r.corrupt == 'k' { flip0(a) } else { a }) })
             } else { None };
             let comm = if h.ringct() { if r.corrupt == 'c' { flip0(C) } else { C } } else { h.fill };
-            let recognisable = r.shift == 0 && r.tag != 'w' && idx.map(|i| h.in_range(i)).unwrap_or(false);
+            let recognisable = r.shift == 0 && r.corrupt != 't' && !tag_is_wrong(r.tag) && idx.map(|i| h.in_range(i)).unwrap_or(false);
             Built { amount: if h.ringct() { if r.corrupt == 'a' { 77 + pos as u64 } else { 0 } } else { r.amount }, key, tag, add_key, ecdh, comm,
-                expect: if recognisable { idx.map(|i| (i, r.own, y, C)) } else { None }, corrupt: h.ringct() && r.corrupt != '-' && r.corrupt != 'a' }
+                expect: if recognisable { idx.map(|i| (i, r.own, y, C)) } else { None }, corrupt: h.ringct() && r.corrupt != '-' && r.corrupt != 'a' && r.corrupt != 't' }
         }
     }
 }
@@ -187,7 +208,7 @@ fn build(h: &Hdr, outs: &[OutD]) -> BuiltTx {
     let n = bs.len();
     let r = sc(&h.seed, 'r', 0);
     let main_base = match h.main_sub { None => G, Some((i, j)) => dest_at(&v, &S, i, j).spend };
-    let main_key = enc(&torsion(&h.T, h.main_tors, r * main_base));
+    let main_key = enc(&torsion(&h.T, h.main_tors, r * main_base)); debug_assert!(main_key == enc(&main_point(h, &v, &S)));
     let q = enc(&(sc(&h.seed, 'q', 0) * G));
     let mut extra = vec![];
     for c in &h.extra {
@@ -207,9 +228,10 @@ fn build(h: &Hdr, outs: &[OutD]) -> BuiltTx {
     let add_cover = match h.extra.iter().find(|c| **c == 'A' || **c == 'H' || **c == 'B') { Some('A') => n, Some('H') => n / 2, _ => 0 };
     BuiltTx { outs: bs, main_key, extra, first_key_is_senders, add_cover }
 }
-fn entry(pos: usize, idx: (u32, u32), key: &[u8], amount: Option<u64>, mask: Option<&Scalar>, comm: Option<&[u8]>) -> String {
-    format!("{}:{}/{}:{}:{}:{}:{}", pos, idx.0, idx.1, hex(key), amount.map(|a| a.to_string()).unwrap_or("none".into()),
-        mask.map(|m| hex(m.as_bytes())).unwrap_or("none".into()), comm.map(hex).unwrap_or("none".into()))
+fn entry(pos: usize, idx: (u32, u32), key: &[u8], amount: Option<u64>, mask: Option<&Scalar>, comm: Option<&[u8]>, b: &Built) -> String {
+    format!("{}:{}/{}:{}:{}:{}:{}:{}/{}/{}", pos, idx.0, idx.1, hex(key), amount.map(|a| a.to_string()).unwrap_or("none".into()),
+        mask.map(|m| hex(m.as_bytes())).unwrap_or("none".into()), comm.map(hex).unwrap_or("none".into()),
+        hex(&b.key), b.tag.map(|t| hex(&[t])).unwrap_or("-".into()), b.amount)
 }
 /// the owned set the sender's intentions imply, from the description alone (no scanning)
 fn expected(h: &Hdr, t: &BuiltTx, outs: &[OutD]) -> String {
@@ -217,14 +239,16 @@ fn expected(h: &Hdr, t: &BuiltTx, outs: &[OutD]) -> String {
     let mut es = vec![]; let mut bad = false;
     for (pos, (b, o)) in t.outs.iter().zip(outs).enumerate() {
         if let (Some((idx, own, y, C)), OutD::Real(r)) = (&b.expect, o) {
-            let main_fits = main_is_senders && !own && match r.dest {
+            let fits = !own && match r.dest {
                 DestK::Primary => h.main_sub.is_none(),
                 DestK::Sub(i, j) => if i == 0 && j == 0 { h.main_sub.is_none() } else { h.main_sub == Some((i, j)) },
                 DestK::Foreign => false };
-            let add_fits = *own && pos < t.add_cover;
+            let main_fits = main_is_senders && fits;
+            // `b<k>`: the additional key at this position carries the main derivation too; the main key wins when it is the sender's
+            let add_fits = (*own || (r.both.is_some() && fits)) && pos < t.add_cover;
             let key: &[u8] = if main_fits { &t.main_key } else if add_fits { &b.add_key } else { continue };
             bad |= b.corrupt;
-            es.push(if h.ringct() { entry(pos, *idx, key, Some(r.amount), Some(y), Some(C)) } else { entry(pos, *idx, key, if r.amount == 0 { None } else { Some(r.amount) }, None, None) });
+            es.push(if h.ringct() { entry(pos, *idx, key, Some(r.amount), Some(y), Some(C), b) } else { entry(pos, *idx, key, if r.amount == 0 { None } else { Some(r.amount) }, None, None, b) });
         }
     }
     if bad { return "err InvalidCommitment".into(); }
@@ -283,8 +307,17 @@ pub fn exec(t: &[&str]) -> Option<String> {
             let cb: [u8; 32] = unhex(cm).try_into().ok()?;
             Some(match CompressedEdwardsY(cb).decompress().and_then(|C| ecdh.open_commitment(&vp, &R, n, &C)) {
                 None => "none".into(),
-                Some(o) => format!("ok {} {}", o.amount.as_pico(), hex(o.blinding_factor.as_bytes())),
+                Some(o) => format!("ok {} {} {}", o.amount.as_pico(), hex(o.blinding_factor.as_bytes()), hex(o.commitment.compress().as_bytes())),
             })
+        })().unwrap_or("bad-input".into()),
+        ["c07_check", v, s, a, b, c, d, n, p, r] => (|| {
+            let vp = view_pair(v, s)?; let rg = ranges(&[a, b, c, d])?; let n: usize = n.parse().ok()?;
+            let P = PublicKey::from_slice(&unhex(p)).ok()?; let R = PublicKey::from_slice(&unhex(r)).ok()?;
+            let ck = SubKeyChecker::new(&vp, rg[0]..rg[1], rg[2]..rg[3]);
+            let show = |i: Option<&monero::cryptonote::subaddress::Index>| i.map(|i| format!("{}/{}", i.major, i.minor)).unwrap_or("none".into());
+            let x = show(ck.check(n, &P, &R));
+            let y = show(ck.check_with_key_generator(monero::cryptonote::onetime_key::KeyGenerator::from_key(&vp, R), n, &P));
+            Some(if x == y { x } else { format!("CHECK-DIFFER check={} with_key_generator={}", x, y) })
         })().unwrap_or("bad-input".into()),
         ["c07_scenario", rest @ ..] => match scenario(rest) {
             None => "bad-input".into(),
@@ -417,13 +450,195 @@ fn run_scenario(o: &mut Out, rng: &mut Rng, line: String, kind: &str) {
     }
 }
 
+/// a hand-composed scenario line (deterministic shape; only the seed, the amounts and the picks named by the caller are random)
+fn scen_line(rng: &mut Rng, r: [u32; 4], ver: u64, rct: &str, main: &str, extra: &str, fill: &str, outs: &[String]) -> String { scen_line_t(rng, 1, r, ver, rct, main, extra, fill, outs) }
+/// … with `<T>` = EIGHT_TORSION[tix] (tix 1, 3, 5, 7: order 8; 2, 6: order 4; 4: order 2)
+fn scen_line_t(rng: &mut Rng, tix: usize, r: [u32; 4], ver: u64, rct: &str, main: &str, extra: &str, fill: &str, outs: &[String]) -> String {
+    format!("c07_scenario {} {} {} {} {} {} {} {} {} {} {} {}", hex(&rng.bytes(8)), r[0], r[1], r[2], r[3], ver, rct, main, extra, hex(&enc(&EIGHT_TORSION[tix])), fill, outs.join(" "))
+}
+/// the entries of an `ok …` result whose subaddress index lies in the ranges `r` (what a scan with narrower ranges must report)
+fn restrict(expected: &str, r: [u32; 4]) -> String {
+    let es: Vec<&str> = expected.split(' ').skip(2).filter(|e| { let f: Vec<&str> = e.split(':').collect(); match parse_idx(f[1]) { Some(i) => r[0] <= i.0 && i.0 < r[1] && r[2] <= i.1 && i.1 < r[3], None => false } }).collect();
+    let mut s = format!("ok {}", es.len()); for e in es { s.push(' '); s += e; } s
+}
+/// coordinator (1): an output key that is the honest one-time key plus a small-order point (order 8, 4, 2) is another key: not reported
+fn family_torsion_key(o: &mut Out, rng: &mut Rng, thorough: bool) {
+    let tixs: Vec<usize> = if thorough { vec![1, 2, 3, 4, 5, 6, 7] } else { vec![*rng.pick(&[1usize, 3, 5, 7]), *rng.pick(&[2usize, 6]), 4] };
+    for tix in tixs {
+        let (ver, rct) = RCTS[rng.below(RCTS.len() as u64) as usize];
+        let am = rng.u64_boundary();
+        let main = if rng.chance(1, 2) { "g" } else { "s1/1" };
+        let (mh, mo) = if main == "g" { ("P", "S1/1") } else { ("S1/1", "P") };
+        let outs = vec![format!("{}.m.t.0.{}.t", mh, am), format!("S0/1.a.n.0.{}.t", am), format!("{}.m.n.0.{}", mh, am), format!("S1/2.a.t.0.{}", am ^ 7),
+            format!("{}.a2.n.0.{}.t", mo, am), format!("{}.m.n.0.{}.t", mh, am), format!("{}.b1.t.0.{}.t", mh, am)];
+        run_scenario_only(o, scen_line_t(rng, tix, [0, 3, 0, 4], ver, rct, main, "KA", CHEAP_FILL, &outs), "torsion-shifted-output-key");
+    }
+}
+/// coordinator (2): state that must not leak between calls on one thread — wallets sharing the spend key, wide then narrow ranges
+/// (through `SubKeyChecker::check` and through scans), minor ranges not starting at 0
+fn family_sequences(o: &mut Out, rng: &mut Rng, thorough: bool) {
+    for _ in 0..(if thorough { 16 } else { 2 }) {
+        let v1 = Scalar::from_bytes_mod_order(rng.arr32()); let v2 = Scalar::from_bytes_mod_order(rng.arr32());
+        let mut S = Scalar::from_bytes_mod_order(rng.arr32()) * G; if rng.chance(1, 3) { S += EIGHT_TORSION[rng.range(1, 7) as usize]; }
+        let R = Scalar::from_bytes_mod_order(rng.arr32()) * G;
+        let n = *rng.pick(&[0u64, 1, 127, 128, 16384]);
+        let key = |v: &Scalar, i: (u32, u32)| deriv_scalar(&derivation(v, &R), n) * G + dest_at(v, &S, i.0, i.1).spend;
+        let narrow = [0u32, 2, 1, 3]; let wide = [0u32, 4, 0, 4];
+        let line = |v: &Scalar, r: [u32; 4], P: &EdwardsPoint| format!("c07_check {} {} {} {} {} {} {} {} {}", hex(v.as_bytes()), hex(&enc(&S)), r[0], r[1], r[2], r[3], n, hex(&enc(P)), hex(&enc(&R)));
+        let idx = (rng.below(2) as u32, 1 + rng.below(2) as u32);
+        let (P1, P2) = (key(&v1, idx), key(&v2, idx));
+        let found = format!("{}/{}", idx.0, idx.1);
+        let wide_only = *rng.pick(&[(3u32, 3u32), (1, 0), (0, 0), (2, 1), (1, 3)]);
+        let Pw = key(&v1, wide_only);
+        let seq: Vec<(String, String, &str)> = vec![
+            (line(&v1, narrow, &P1), found.clone(), "wallet 1, its key"),
+            (line(&v2, narrow, &P1), "none".into(), "wallet 2 (same spend key, other view key), wallet 1's key, same tx key"),
+            (line(&v2, narrow, &P2), found.clone(), "wallet 2, its key"),
+            (line(&v1, narrow, &P2), "none".into(), "wallet 1, wallet 2's key"),
+            (line(&v1, wide, &Pw), format!("{}/{}", wide_only.0, wide_only.1), "wide ranges"),
+            (line(&v1, narrow, &Pw), "none".into(), "narrow ranges right after wide ones: index outside the narrow ranges"),
+            (line(&v1, wide, &Pw), format!("{}/{}", wide_only.0, wide_only.1), "wide ranges again"),
+            (line(&v1, wide, &P1), found.clone(), "wide ranges, index of the narrow ones"),
+        ];
+        for (l, want, what) in seq {
+            let got = o.op(l.clone(), true);
+            o.direct(got == want, "SubKeyChecker::check in a sequence of calls on one thread (no state may leak between view pairs / ranges)", format!("{}: {}", what, trunc(&l, 300)), got, want);
+            o.stat("c07_check:sequence");
+        }
+    }
+    // scans: wide ranges, then narrow ranges (minor not starting at 0), then wide again, same transaction
+    for _ in 0..(if thorough { 8 } else { 1 }) {
+        let (ver, rct) = RCTS[rng.below(RCTS.len() as u64) as usize];
+        let am = rng.u64_boundary();
+        let outs = vec![format!("P.m.t.0.{}", am), format!("S1/2.a.n.0.{}", am), format!("S3/3.a.t.0.{}", am), format!("S1/0.a.n.0.{}", am), format!("S0/1.a1.t.0.{}", am), format!("S2/1.a.t.0.{}", am), "X".to_string()];
+        let wide = [0u32, 4, 0, 4];
+        let line = scen_line(rng, wide, ver, rct, "g", "KA", CHEAP_FILL, &outs);
+        let s = match run_scenario_only(o, line.clone(), "wide-then-narrow") { Some(s) => s, None => continue };
+        if !s.expected.starts_with("ok ") { continue; }
+        let vh = hex(s.vp.view.as_bytes()); let sh = hex(s.vp.spend.as_bytes()); let ph = hex(&serialize(&s.prefix)); let bt = base_text(&s.base);
+        for r in [[0u32, 2, 1, 3], wide, [1, 4, 0, 1], [0, 1, 0, 1], wide] {
+            let got = o.op(format!("c07_scan_pb {} {} {} {} {} {} {} {}", vh, sh, r[0], r[1], r[2], r[3], ph, bt), true);
+            let want = restrict(&s.expected, r);
+            o.direct(got == want, "scan with other ranges of the same transaction right after: exactly the entries whose index is in the ranges", format!("{:?} {}", r, trunc(&line, 300)), trunc(&got, 400), trunc(&want, 400));
+            o.stat("c07_scan_pb:ranges-sequence");
+        }
+    }
+}
+
+/// the scenario only (operation + expected-set oracle), no derived wire / prefix+base operations
+fn run_scenario_only(o: &mut Out, line: String, kind: &str) -> Option<Scen> {
+    let toks: Vec<&str> = line.split(' ').collect();
+    let s = match scenario(&toks[1..]) { Some(s) => s, None => { o.notes.push(format!("generator produced an unparsable scenario: {}", trunc(&line, 200))); return None; } };
+    let got = o.op(line.clone(), true);
+    let want = format!("{} {}", s.line_hash, s.expected);
+    o.direct(got == want, "library scan of the harness-built transaction = owned set implied by the sender's intentions", trunc(&line, 400), trunc(&got, 400), trunc(&want, 400));
+    o.stat(&format!("scenario:{}", kind));
+    o.stat(if got.contains(" err ") { "result:err" } else if got.contains(" ok 0") { "result:none-owned" } else { "result:owned" });
+    Some(s)
+}
+const WRONG_TAGS: [char; 6] = ['w', 'v', 'x', 'y', 'z', 'f'];
+/// audit C07 §4.1: BOTH keys address the output (additional key at the position = main key + k·T): the main key must be reported
+fn family_both_keys(o: &mut Out, rng: &mut Rng, thorough: bool) {
+    let ks: Vec<usize> = if thorough { (0..8).collect() } else { vec![0, 1, rng.range(2, 7) as usize] };
+    for (n, &k) in ks.iter().enumerate() {
+        let (ver, rct) = RCTS[rng.below(RCTS.len() as u64) as usize];
+        let am = rng.u64_boundary();
+        let sub_main = n % 2 == 1;
+        let (main, hit, miss) = if sub_main { ("s1/2".to_string(), "S1/2", "P") } else { (if k % 3 == 2 { "g+3".to_string() } else { "g".to_string() }, "P", "S2/3") };
+        // extras: full additional list; main key only; half list; a foreign tx key first (then the additional copy is what matches)
+        for extra in if thorough { vec!["KA", "K", "KH", "QKA", "NKAP"] } else { vec![*rng.pick(&["KA", "KA", "NKAP", "KH"]), "QKA"] } {
+            let tag = *rng.pick(&['t', 'n']);
+            let outs = vec![format!("{}.b{}.{}.0.{}", hit, k, tag, am), "X".to_string(), format!("S0/1.a.{}.0.{}", tag, am ^ 1),
+                format!("{}.b{}.{}.0.{}", miss, k, tag, am), format!("{}.b{}.t.0.{}", hit, (k + 3) % 8, am.wrapping_add(5)), format!("{}.b{}.w.0.{}", hit, k, am)];
+            run_scenario_only(o, scen_line(rng, [0, 3, 0, 4], ver, rct, &main, extra, CHEAP_FILL, &outs), "both-keys");
+        }
+    }
+}
+/// audit C07 §4.2: every kind of wrong tag, through the main key and through the additional key, next to right ones
+fn family_wrong_tags(o: &mut Out, rng: &mut Rng, thorough: bool) {
+    for _ in 0..(if thorough { 12 } else { 2 }) {
+        let (ver, rct) = RCTS[rng.below(RCTS.len() as u64) as usize];
+        let am = rng.u64_boundary();
+        let mut outs = vec![];
+        for c in WRONG_TAGS { outs.push(format!("P.m.{}.0.{}", c, am)); outs.push(format!("S{}/{}.a.{}.0.{}", rng.below(2), 1 + rng.below(2), c, am)); }
+        let at = rng.below(outs.len() as u64 + 1) as usize; outs.insert(at, format!("P.m.t.0.{}", am));
+        let at = rng.below(outs.len() as u64 + 1) as usize; outs.insert(at, format!("S1/1.a.t.0.{}", am));
+        run_scenario_only(o, scen_line(rng, [0, 3, 0, 4], ver, rct, "g", "KA", CHEAP_FILL, &outs), "wrong-tags");
+    }
+}
+/// audit C07 §4.3: subaddress indices beyond 16 / 32 bits' low parts, ranges starting high, ending at u32::MAX, inverted (empty) ranges
+fn family_high_indices(o: &mut Out, rng: &mut Rng, thorough: bool) {
+    let mut rs: Vec<[u32; 4]> = vec![[65535, 65538, 255, 258], [4294967293, 4294967295, 0, 2], [3, 1, 0, 4], [0, 3, 4, 1], [256, 258, 65536, 65538], [16777215, 16777217, 4294967290, 4294967295]];
+    if thorough { rs.push([0, 100, 0, 100]); rs.push([1000, 1003, 0, 1500]); }
+    for r in rs {
+        let empty = r[0] >= r[1] || r[2] >= r[3];
+        let (ver, rct) = RCTS[rng.below(RCTS.len() as u64) as usize];
+        let am = rng.u64_boundary();
+        // corners of the range (in), and the four neighbours just outside; for empty ranges everything is outside
+        let (lo, hi) = if empty { ((r[0].min(r[1]), r[2].min(r[3])), (r[0].max(r[1]), r[2].max(r[3]))) } else { ((r[0], r[2]), (r[1] - 1, r[3] - 1)) };
+        let main = format!("s{}/{}", hi.0, hi.1);
+        let mut outs = vec![format!("S{}/{}.a.t.0.{}", lo.0, lo.1, am), format!("S{}/{}.m.n.0.{}", hi.0, hi.1, am), format!("S{}/{}.a.n.0.{}", lo.0, hi.1, am), format!("S{}/{}.a1.t.0.{}", hi.0, lo.1, am),
+            format!("S{}/{}.a.t.0.{}", hi.0.wrapping_add(1), lo.1, am), format!("S{}/{}.a.t.0.{}", lo.0, hi.1.wrapping_add(1), am), "P.a.t.0.3".to_string()];
+        if lo.0 > 0 { outs.push(format!("S{}/{}.a.n.0.{}", lo.0 - 1, lo.1, am)); }
+        if lo.1 > 0 { outs.push(format!("S{}/{}.a.n.0.{}", lo.0, lo.1 - 1, am)); }
+        // the index with the two components exchanged, and with the low 16 bits only (a truncating encoding would collide)
+        outs.push(format!("S{}/{}.a.n.0.{}", lo.1, lo.0, am)); outs.push(format!("S{}/{}.a.n.0.{}", hi.0 & 0xffff, hi.1 & 0xffff, am));
+        run_scenario_only(o, scen_line(rng, r, ver, rct, &main, "KA", CHEAP_FILL, &outs), if empty { "high-index:empty-range" } else { "high-index" });
+    }
+}
+/// audit C07 §4.5/§4.6: `SubKeyChecker::check` / `check_with_key_generator` called directly; wallets with extreme view keys and spend
+/// keys with a small-order component; positions up to 2^32; the expected answer comes from how the key was built
+fn family_check(o: &mut Out, rng: &mut Rng, thorough: bool) {
+    let l_minus_1 = -Scalar::ONE;
+    for it in 0..(if thorough { 160 } else { 20 }) {
+        let v = match it % 10 { 0 => Scalar::ONE, 1 => l_minus_1, 2 => Scalar::ZERO, _ => Scalar::from_bytes_mod_order(rng.arr32()) };
+        let mut S = Scalar::from_bytes_mod_order(rng.arr32()) * G;
+        if it % 3 == 1 { S += EIGHT_TORSION[rng.range(1, 7) as usize]; }
+        let r = *rng.pick(&[[0u32, 2, 0, 3], [0, 1, 0, 1], [1, 3, 0, 2], [65535, 65537, 255, 257], [4294967293, 4294967295, 0, 2], [3, 1, 0, 4], [0, 0, 0, 5], [0, 3, 1, 4], [0, 2, 1, 3]]);
+        let in_range = |i: (u32, u32)| r[0] <= i.0 && i.0 < r[1] && r[2] <= i.1 && i.1 < r[3];
+        let empty = r[0] >= r[1] || r[2] >= r[3];
+        let idx = if !empty && rng.chance(2, 3) { (r[0] + rng.below((r[1] - r[0]) as u64) as u32, r[2] + rng.below((r[3] - r[2]) as u64) as u32) }
+            else { *rng.pick(&[(0, 0), (r[1], r[2]), (r[0], r[3]), (r[0].wrapping_sub(1), r[2]), (7, 9)]) };
+        let n = *rng.pick(&[0u64, 1, 127, 128, 16383, 16384, 65535, 65536, 2097151, 2097152, 4294967295, 4294967296, 1 << 40]);
+        let mut R = Scalar::from_bytes_mod_order(rng.arr32()) * G;
+        if rng.chance(1, 4) { R += EIGHT_TORSION[rng.range(1, 7) as usize]; }
+        let d = dest_at(&v, &S, idx.0, idx.1);
+        let D = derivation(&v, &R);
+        let what = rng.below(6);
+        let (P, hit) = match what {
+            0 => (deriv_scalar(&D, n + 1) * G + d.spend, false),                                  // other position
+            1 => (deriv_scalar(&D, n) * G + d.spend + EIGHT_TORSION[rng.range(1, 7) as usize], false), // right key shifted by a small-order point
+            2 => (deriv_scalar(&D, n) * G + Scalar::from_bytes_mod_order(rng.arr32()) * G, false), // other wallet
+            _ => (deriv_scalar(&D, n) * G + d.spend, true),
+        };
+        let got = o.op(format!("c07_check {} {} {} {} {} {} {} {} {}", hex(v.as_bytes()), hex(&enc(&S)), r[0], r[1], r[2], r[3], n, hex(&enc(&P)), hex(&enc(&R))), true);
+        let want = if hit && in_range(idx) { format!("{}/{}", idx.0, idx.1) } else { "none".to_string() };
+        o.direct(got == want, "SubKeyChecker::check finds exactly the index the key was built for, when it is in range", format!("v#{} idx={:?} r={:?} n={} what={}", it % 10, idx, r, n, what), got.clone(), want);
+        o.stat(&format!("c07_check:{}", if got == "none" { "none" } else { "found" }));
+    }
+}
+
 pub fn run_c07(o: &mut Out, tier: &str, seed: u64) {
     let mut rng = Rng::new(seed ^ 0xc07);
     let thorough = tier == "thorough";
     let (small, c128, c16k) = if thorough { (340, 56, 4) } else { (30, 9, 1) };
     for _ in 0..small { let l = gen_scenario(&mut rng, 0, None, None, true); run_scenario(o, &mut rng, l, "small"); }
     for _ in 0..c128 { let l = gen_scenario(&mut rng, 128, None, None, true); run_scenario(o, &mut rng, l, "cross-128"); }
-    for i in 0..c16k { let l = gen_scenario(&mut rng, 16384, None, None, thorough && i % 2 == 1); run_scenario(o, &mut rng, l, "cross-16384"); }
+    // quick tier: the one scenario beyond 16384 carries additional keys (the additional-key path at a 3-byte-varint position)
+    for i in 0..c16k { let l = gen_scenario(&mut rng, 16384, None, None, !thorough || i % 2 == 1); run_scenario(o, &mut rng, l, "cross-16384"); }
+    // families added after the audit (own generator stream, so the scenarios above are the same as before for a given seed)
+    let mut rng = Rng::new(seed ^ 0xc07_a0d1);
+    family_both_keys(o, &mut rng, thorough);
+    family_wrong_tags(o, &mut rng, thorough);
+    family_high_indices(o, &mut rng, thorough);
+    family_check(o, &mut rng, thorough);
+    family_torsion_key(o, &mut rng, thorough);
+    family_sequences(o, &mut rng, thorough);
+    if thorough {
+        // positions beyond 65536 (a 3-byte varint well inside; `index as u16` would wrap): owned outputs through both key kinds
+        let outs = vec!["g.65534".to_string(), "S0/1.a.t.0.5".to_string(), "P.m.n.0.7".to_string(), "g.2".to_string(), "S1/2.a3.n.0.9".to_string()];
+        run_scenario_only(o, scen_line(&mut rng, [0, 3, 0, 4], 2, "6", "g", "KA", CHEAP_FILL, &outs), "cross-65536");
+    }
     o.notes.push("every scan result is the agreement of Transaction::check_outputs, TransactionPrefix::check_outputs(Some(&base)), check_outputs_with(pre-built SubKeyChecker) on prefix and on transaction (APIS-DIFFER otherwise)".into());
     o.notes.push("non-trivial = every scenario (each has at least one sender-built output); positions cross 128 / 16384 by filler runs of undecodable keys".into());
 }
@@ -433,11 +648,149 @@ fn boundary_amounts() -> Vec<u64> {
     for k in 1..64 { let p = 1u64 << k; v.extend([p - 1, p, p + 1]); }
     v.sort(); v.dedup(); v
 }
+/// soundness oracle on dalek for a `c08_open` result: `none`, or `ok a y c` with y canonical (< l), y·G + a·H = the point the candidate
+/// bytes denote, and c = the canonical encoding of that point
+fn opening_is_sound(got: &str, cand: &[u8; 32]) -> bool {
+    match got.split(' ').collect::<Vec<_>>().as_slice() {
+        ["none"] => true,
+        ["ok", a2, y2, c] => {
+            let yb: [u8; 32] = match unhex(y2).try_into() { Ok(b) => b, Err(_) => return false };
+            let y2 = match Option::<Scalar>::from(Scalar::from_canonical_bytes(yb)) { Some(s) => s, None => return false };
+            let a2: u64 = match a2.parse() { Ok(a) => a, Err(_) => return false };
+            CompressedEdwardsY(*cand).decompress().map(|p| p == commitment(&y2, a2) && hex(&enc(&p)) == *c).unwrap_or(false)
+        }
+        _ => false }
+}
+/// 32-byte little-endian `x + t·l` (None if it does not fit 256 bits): a non-canonical dress of the scalar x
+fn add_l(x: &[u8; 32], t: u8) -> Option<[u8; 32]> {
+    let l = unhex("edd3f55c1a631258d69cf7a2def9de1400000000000000000000000000000010");
+    let mut r = *x;
+    for _ in 0..t { let mut carry = 0u16; for i in 0..32 { let s = r[i] as u16 + l[i] as u16 + carry; r[i] = s as u8; carry = s >> 8; } if carry != 0 { return None; } }
+    Some(r)
+}
+/// the result with the clear amounts, from an `ok …` result with openings: amount := clear amount of `out()` (0 ↦ none), no mask, no commitment
+fn clear_version(expected: &str) -> String {
+    expected.split(' ').map(|e| { let f: Vec<&str> = e.split(':').collect(); if f.len() != 7 { return e.to_string(); }
+        let clear = f[6].rsplit('/').next().unwrap(); format!("{}:{}:{}:{}:none:none:{}", f[0], f[1], f[2], if clear == "0" { "none" } else { clear }, f[6]) }).collect::<Vec<_>>().join(" ")
+}
+fn with_type(base: &str, ty: u8) -> String { let p: Vec<&str> = base.splitn(2, ':').collect(); format!("{}:{}", ty, p[1]) }
+fn truncated(base: &str, ecdh: Option<usize>, pk: Option<usize>) -> String {
+    let p: Vec<&str> = base.split(':').collect();
+    let cut = |l: &str, k: Option<usize>| -> String { match k { None => l.to_string(), Some(k) => { let v: Vec<&str> = split_list(l).into_iter().take(k).collect(); if v.is_empty() { "-".into() } else { v.join(",") } } } };
+    format!("{}:{}:{}", p[0], cut(p[1], ecdh), cut(p[2], pk))
+}
+/// audit C08 §4.2: for every RingCT type a scan in which ONE owned output fails to open (ecdh amount / ecdh mask / commitment) next to
+/// honest owned outputs: the whole scan must be `Err(InvalidCommitment)` — through the main key and through the additional key
+fn family_failed_opening(o: &mut Out, rng: &mut Rng, thorough: bool, seed: u64) {
+    let cors = ['e', 'k', 'c'];
+    for rct in 1..=6u64 {
+        let sel: Vec<char> = if thorough { cors.to_vec() } else { vec![cors[((rct + seed) % 3) as usize]] };
+        for cor in sel {
+            let am = *rng.pick(&[0u64, 1, u64::MAX, 1 << 63, 12345]);
+            let via_add = rng.chance(1, 2);
+            let bad = if via_add { format!("S0/1.a.t.0.{}.{}", am, cor) } else { format!("P.m.n.0.{}.{}", am, cor) };
+            let good1 = if via_add { format!("P.m.t.0.{}", am ^ 3) } else { format!("S1/2.a.n.0.{}", am ^ 3) };
+            let mut outs = vec!["X".to_string(), good1, bad, format!("S0/2.a.t.0.{}", 77)];
+            if rng.chance(1, 2) { outs.swap(1, 2); }
+            let s = run_scenario_only(o, scen_line(rng, [0, 3, 0, 4], 2, &rct.to_string(), "g", "KA", CHEAP_FILL, &outs), &format!("c08:failed-opening:rct{}:{}", rct, cor));
+            if let Some(s) = s { o.direct(s.expected == "err InvalidCommitment", "family invariant: one corrupted owned output makes the expected result an error", "failed-opening".into(), s.expected.clone(), "err InvalidCommitment".into()); }
+        }
+    }
+}
+/// audit C08 §4.3/§4.4: `TransactionPrefix::check_outputs` with an explicitly given base — lists truncated to 0 / to an owned position /
+/// just behind the owned positions, `Null` with non-empty lists, the ecdh variant that does not belong to the type, version-1 prefix with
+/// a RingCT base; every owned output carries a non-zero CLEAR amount as well (`.a`), so that "treated like Null" is visible
+fn family_explicit_base(o: &mut Out, rng: &mut Rng, thorough: bool) {
+    let rcts: Vec<u64> = if thorough { (1..=6).collect() } else { vec![*rng.pick(&[1u64, 2, 3]), *rng.pick(&[4u64, 5, 6])] };
+    for rct in rcts {
+        for ver in if thorough { vec![2u64, 1] } else { vec![if rct <= 3 { 2 } else { 1 }] } {
+            let a1 = *rng.pick(&[1u64, u64::MAX, 1 << 32, 999]); let a2 = rng.u64_boundary();
+            // owned positions: 1 (main key) and 2 (additional key); 0 and 3 are not ours
+            let outs = vec!["X".to_string(), format!("P.m.t.0.{}.a", a1), format!("S1/2.a.n.0.{}.a", a2), "F.m.t.0.5.a".to_string()];
+            let line = scen_line(rng, [0, 3, 0, 4], ver, &rct.to_string(), "g", "KA", CHEAP_FILL, &outs);
+            let kind = if ver == 1 { "c08:pb:v1-prefix-ringct-base" } else { "c08:pb:base" };
+            let s = match run_scenario_only(o, line.clone(), kind) { Some(s) => s, None => continue };
+            if !s.expected.starts_with("ok 2 ") { o.direct(false, "family invariant: two owned outputs expected", trunc(&line, 300), s.expected.clone(), "ok 2 …".into()); continue; }
+            let vh = hex(s.vp.view.as_bytes()); let sh = hex(s.vp.spend.as_bytes());
+            let head = format!("c07_scan_pb {} {} {} {} {} {} {}", vh, sh, s.r[0], s.r[1], s.r[2], s.r[3], hex(&serialize(&s.prefix)));
+            let base = base_text(&s.base);
+            let legacy = rct <= 3;
+            let mut cases: Vec<(String, String, String)> = vec![
+                ("ecdh-cut-0".into(), truncated(&base, Some(0), None), "err MissingEcdhInfo".into()),
+                ("outpk-cut-0".into(), truncated(&base, None, Some(0)), "err MissingCommitment".into()),
+                ("both-cut-0".into(), truncated(&base, Some(0), Some(0)), "err MissingEcdhInfo".into()),
+                ("ecdh-cut-at-first-owned".into(), truncated(&base, Some(1), None), "err MissingEcdhInfo".into()),
+                ("outpk-cut-at-first-owned".into(), truncated(&base, None, Some(1)), "err MissingCommitment".into()),
+                // position 1 decides (its commitment is missing), not position 2 (whose ecdh entry is missing)
+                ("first-failing-decides".into(), truncated(&base, Some(2), Some(1)), "err MissingCommitment".into()),
+                ("ecdh-cut-at-second-owned".into(), truncated(&base, Some(2), None), "err MissingEcdhInfo".into()),
+                ("outpk-cut-at-second-owned".into(), truncated(&base, None, Some(2)), "err MissingCommitment".into()),
+                ("cut-behind-owned".into(), truncated(&base, Some(3), Some(3)), s.expected.clone()),
+                ("null-with-lists".into(), with_type(&base, 0), clear_version(&s.expected)),
+                ("no-base".into(), "none".into(), clear_version(&s.expected)),
+            ];
+            // every (RctType, ecdh variant) combination: the variant decides how the amount is decoded, the type only whether anything is opened
+            for t in 1..=6u8 { cases.push((format!("type-variant:{}", t), with_type(&base, t), s.expected.clone())); }
+            if !thorough { let keep = rng.below(3); let n = cases.len(); cases = cases.into_iter().enumerate().filter(|(i, _)| *i as u64 % 3 == keep || *i >= n - 8 || *i == 5 || *i == 8).map(|(_, c)| c).collect(); }
+            for (name, b, want) in cases {
+                let got = o.op(format!("{} {}", head, b), true);
+                o.direct(got == want, "TransactionPrefix::check_outputs with an explicit base: result implied by the sender's intentions and the list lengths", format!("{} {}", name, trunc(&line, 300)), trunc(&got, 400), trunc(&want, 400));
+                o.stat(&format!("c08:pb:{}", name.split(':').next().unwrap()));
+                if let Some(t) = name.strip_prefix("type-variant:") { o.stat(&format!("c08:type-variant:{}:{}", t, if legacy { "standard" } else { "bulletproof" })); }
+            }
+        }
+    }
+}
+
+/// coordinator (4): two different wallets scan / open outputs of the SAME transaction one after the other on one thread. Wallet A is the
+/// scenario's wallet, wallet B the scenario's "foreign" wallet (secrets `V`, `S`); B's expected entries are computed here from the sender's side.
+fn family_two_wallets(o: &mut Out, rng: &mut Rng, thorough: bool) {
+    let rcts: Vec<u64> = if thorough { (1..=6).collect() } else { vec![*rng.pick(&[1u64, 2, 3]), *rng.pick(&[4u64, 5, 6])] };
+    for rct in rcts {
+        let am: Vec<u64> = (0..4).map(|_| rng.u64_boundary()).collect();
+        let descr = vec![format!("P.m.t.0.{}", am[0]), format!("F.m.n.0.{}", am[1]), format!("S1/2.a.t.0.{}", am[2]), format!("F.m.t.0.{}", am[3])];
+        let line = scen_line(rng, [0, 3, 0, 4], 2, &rct.to_string(), "g", "KA", CHEAP_FILL, &descr);
+        let toks: Vec<&str> = line.split(' ').collect();
+        let s = match run_scenario_only(o, line.clone(), "c08:two-wallets") { Some(s) => s, None => continue };
+        let (h, outs) = parse_scenario(&toks[1..]).unwrap();
+        let bt = build(&h, &outs);
+        // wallet B = the foreign wallet; the sender used the main secret r for its outputs, so B finds them through the main key r·G
+        let vb = sc(&h.seed, 'V', 0); let Sb = sc(&h.seed, 'S', 0) * G; let r = sc(&h.seed, 'r', 0);
+        let mut es = vec![]; let mut opens = vec![];
+        for pos in [1usize, 3] {
+            let k = deriv_scalar(&derivation(&r, &(vb * G)), pos as u64);
+            let y = if h.compact() { compact_mask(&k) } else { sc(&h.seed, 'y', pos as u32) };
+            let C = enc(&commitment(&y, am[pos]));
+            es.push(entry(pos, (0, 0), &bt.main_key, Some(am[pos]), Some(&y), Some(&C), &bt.outs[pos]));
+            let e = match bt.outs[pos].ecdh.as_ref().unwrap() { EcdhInfo::Standard { mask, amount } => hex(&cat(&[&mask.key, &amount.key])), EcdhInfo::Bulletproof { amount } => hex(&amount.0) };
+            opens.push((pos, e, C, y));
+        }
+        let want_b = format!("ok 2 {}", es.join(" "));
+        let ph = hex(&serialize(&s.prefix)); let bs = base_text(&s.base);
+        let scan = |v: &Scalar, S: &EdwardsPoint| format!("c07_scan_pb {} {} 0 3 0 4 {} {}", hex(v.as_bytes()), hex(&enc(S)), ph, bs);
+        let va = sc(&h.seed, 'v', 0); let Sa = sc(&h.seed, 's', 0) * G;
+        for (who, l, want) in [("A", scan(&va, &Sa), s.expected.clone()), ("B", scan(&vb, &Sb), want_b.clone()), ("A", scan(&va, &Sa), s.expected.clone()), ("B", scan(&vb, &Sb), want_b.clone())] {
+            let got = o.op(l, true);
+            o.direct(got == want, "two wallets scanning the same transaction one after the other: each gets its own outputs and amounts", format!("wallet {} {}", who, trunc(&line, 300)), trunc(&got, 400), trunc(&want, 400));
+            o.stat("c08:two-wallets:scan");
+        }
+        // … and through EcdhInfo::open_commitment directly, alternating: B's output with B's key opens, with A's key it does not
+        for (pos, e, C, y) in &opens {
+            for (who, v, S, want) in [("B", &vb, &Sb, format!("ok {} {} {}", am[*pos], hex(y.as_bytes()), hex(C))), ("A", &va, &Sa, "none".to_string())] {
+                let got = o.op(format!("c08_open {} {} {} {} {} {}", hex(v.as_bytes()), hex(&enc(S)), hex(&bt.main_key), pos, e, hex(C)), true);
+                o.direct(got == want, "open_commitment of one output by two wallets one after the other: only the addressee opens it", format!("wallet {} pos {} {}", who, pos, trunc(&line, 200)), got, want);
+                o.stat("c08:two-wallets:open");
+            }
+        }
+    }
+}
+
 pub fn run_c08(o: &mut Out, tier: &str, seed: u64) {
     let mut rng = Rng::new(seed ^ 0xc08);
     let thorough = tier == "thorough";
     let amounts = boundary_amounts();
-    let picks: Vec<u64> = if thorough { amounts.clone() } else { let mut p: Vec<u64> = (0..22).map(|_| *rng.pick(&amounts)).collect(); p.extend([0, 1, u64::MAX, 1 << 63, (1 << 32) - 1]); p };
+    // the boundary amounts come FIRST so that the corruption budget below is spent on them too (audit C08 §4.1)
+    let picks: Vec<u64> = if thorough { amounts.clone() } else { let mut p: Vec<u64> = vec![0, 1, u64::MAX, 1 << 63, (1 << 32) - 1]; p.extend((0..22).map(|_| *rng.pick(&amounts))); p };
     let vS = hex(&enc(&(Scalar::from(7u64) * G)));
     let mut corrupt_budget = if thorough { 400 } else { 40 };
     for (ix, &a) in picks.iter().enumerate() {
@@ -451,8 +804,8 @@ pub fn run_c08(o: &mut Out, tier: &str, seed: u64) {
             let e: Vec<u8> = if legacy { let (m, x) = legacy_encode(&k, &y, a); cat(&[&m, &x]) } else { compact_encode(&k, a).to_vec() };
             let head = format!("c08_open {} {} {} {}", hex(v.as_bytes()), vS, hex(&enc(&R)), n);
             let got = o.op(format!("{} {} {}", head, hex(&e), hex(&C)), true);
-            let want = format!("ok {} {}", a, hex(y.as_bytes()));
-            o.direct(got == want, "open_commitment(own encode(a, y, k)) = (a, y)", format!("a={} legacy={} n={}", a, legacy, n), got.clone(), want);
+            let want = format!("ok {} {} {}", a, hex(y.as_bytes()), hex(&C));
+            o.direct(got == want, "open_commitment(own encode(a, y, k)) = (a, y, C)", format!("a={} legacy={} n={}", a, legacy, n), got.clone(), want);
             o.stat(if legacy { "roundtrip:legacy" } else { "roundtrip:compact" });
             if corrupt_budget > 0 {
                 corrupt_budget -= 1;
@@ -472,10 +825,7 @@ pub fn run_c08(o: &mut Out, tier: &str, seed: u64) {
                 }
                 let got2 = o.op(format!("{} {} {}", head, hex(&e2), hex(&c2)), true);
                 // soundness oracle on dalek: whatever comes out opens the commitment that the bytes denote
-                let sound = match got2.split(' ').collect::<Vec<_>>().as_slice() {
-                    ["none"] => true,
-                    ["ok", a2, y2] => { let yb: [u8; 32] = unhex(y2).try_into().unwrap(); let y2 = Scalar::from_bytes_mod_order(yb); let a2: u64 = a2.parse().unwrap(); CompressedEdwardsY(c2).decompress().map(|p| p == commitment(&y2, a2)).unwrap_or(false) }
-                    _ => false };
+                let sound = opening_is_sound(&got2, &c2);
                 o.direct(sound, "a reported opening opens the commitment (y'G + a'H = C)", format!("{} {} {}", head, hex(&e2), hex(&c2)), got2.clone(), "none or a valid opening".into());
                 o.stat(&format!("corrupt:{}:{}", what, if got2 == "none" { "none" } else { "ok" }));
             }
@@ -495,10 +845,7 @@ pub fn run_c08(o: &mut Out, tier: &str, seed: u64) {
         let c = enc(&(y * G + wide * H()));
         let line = format!("c08_open {} {} {} {} {} {}", hex(v.as_bytes()), vS, hex(&enc(&R)), n, hex(&e), hex(&c));
         let got = o.op(line.clone(), true);
-        let sound = match got.split(' ').collect::<Vec<_>>().as_slice() {
-            ["none"] => true,
-            ["ok", a2, y2] => { let yb: [u8; 32] = unhex(y2).try_into().unwrap(); let y2 = Scalar::from_bytes_mod_order(yb); let a2: u64 = a2.parse().unwrap(); CompressedEdwardsY(c).decompress().map(|p| p == commitment(&y2, a2)).unwrap_or(false) }
-            _ => false };
+        let sound = opening_is_sound(&got, &c);
         o.direct(sound, "a reported opening opens the commitment (y'G + a'H = C)", line, got.clone(), "none or a valid opening".into());
         o.stat(&format!("wide-amount-scalar:{}", if got == "none" { "none" } else { "ok" }));
     }
@@ -509,7 +856,7 @@ pub fn run_c08(o: &mut Out, tier: &str, seed: u64) {
         let (m, x) = legacy_encode(&k, &Scalar::ZERO, 0);
         for c in [hex(&enc(&EdwardsPoint::identity())), "0100000000000000000000000000000000000000000000000000000000000080".into(), "eeffffffffffffffffffffffffffffffffffffffffffffffffffffffffffff7f".into()] {
             let got = o.op(format!("c08_open {} {} {} 3 {} {}", hex(v.as_bytes()), vS, hex(&enc(&R)), hex(&cat(&[&m, &x])), c), true);
-            o.direct(got == format!("ok 0 {}", hex(Scalar::ZERO.as_bytes())), "zero commitment in any encoding dalek decompresses to the identity opens to (0, 0)", c, got, "ok 0 00…".into());
+            o.direct(got == format!("ok 0 {} {}", hex(Scalar::ZERO.as_bytes()), hex(&enc(&EdwardsPoint::identity()))), "zero commitment in any encoding dalek decompresses to the identity opens to (0, 0) and the reported commitment is the canonical identity", c, got, "ok 0 00… 0100…".into());
             o.stat("identity-commitment");
         }
     }
@@ -527,6 +874,50 @@ pub fn run_c08(o: &mut Out, tier: &str, seed: u64) {
             let am = *rng.pick(&amounts); let l = gen_scenario(&mut rng, 0, Some((*ver, *rct)), Some(am), true);
             let forced: Vec<String> = l.split(' ').enumerate().map(|(i, t)| if i > 11 && t.split('.').count() == 5 && (t.starts_with('P') || t.starts_with('S')) { format!("{}.a", t) } else { t.to_string() }).collect();
             run_scenario(o, &mut rng, forced.join(" "), &format!("c08:clear-amount-in-ringct:rct{}", rct));
+        }
+    }
+    // families added after the audit (own generator stream)
+    let mut rng = Rng::new(seed ^ 0xc08_a0d1);
+    // legacy fields in non-canonical dress (x + t·l < 2^256): `from_bytes_mod_order` must reduce them, the opening is the same (audit §4.5)
+    for i in 0..(if thorough { 60 } else { 10 }) {
+        let v = Scalar::from_bytes_mod_order(rng.arr32()); let R = Scalar::from_bytes_mod_order(rng.arr32()) * G; let n = rng.below(5);
+        let k = deriv_scalar(&derivation(&v, &R), n);
+        let y = Scalar::from_bytes_mod_order(rng.arr32()); let a = *rng.pick(&amounts);
+        let (m, x) = legacy_encode(&k, &y, a);
+        let (tm, tx) = match i % 3 { 0 => (rng.range(1, 15) as u8, 0), 1 => (0, rng.range(1, 15) as u8), _ => (rng.range(1, 15) as u8, rng.range(1, 15) as u8) };
+        let (m2, x2) = match (add_l(&m, tm), add_l(&x, tx)) { (Some(m2), Some(x2)) => (m2, x2), _ => { o.stat("noncanonical-legacy:overflow"); continue } };
+        let C = enc(&commitment(&y, a));
+        let got = o.op(format!("c08_open {} {} {} {} {} {}", hex(v.as_bytes()), vS, hex(&enc(&R)), n, hex(&cat(&[&m2, &x2])), hex(&C)), true);
+        let want = format!("ok {} {} {}", a, hex(y.as_bytes()), hex(&C));
+        o.direct(got == want, "legacy ecdh fields plus a multiple of l open like the canonical ones", format!("a={} t_mask={} t_amount={}", a, tm, tx), got, want);
+        o.stat("noncanonical-legacy");
+    }
+    family_failed_opening(o, &mut rng, thorough, seed);
+    family_explicit_base(o, &mut rng, thorough);
+    family_two_wallets(o, &mut rng, thorough);
+    // coordinator (3): owned outputs at positions >= 128 (two-byte varint) and, thorough, >= 16384: amount opening through scans …
+    let rcts: Vec<(u64, &str)> = if thorough { RCTS[3..9].to_vec() } else { vec![RCTS[3 + rng.below(3) as usize], RCTS[6 + rng.below(3) as usize]] };
+    for (ver, rct) in &rcts {
+        let am = *rng.pick(&amounts); let l = gen_scenario(&mut rng, 128, Some((*ver, *rct)), Some(am), true);
+        run_scenario(o, &mut rng, l, &format!("c08:cross-128:rct{}", rct));
+    }
+    if thorough { for (ver, rct) in [RCTS[3], RCTS[7]] { let am = *rng.pick(&amounts); let l = gen_scenario(&mut rng, 16384, Some((ver, rct)), Some(am), true); run_scenario(o, &mut rng, l, &format!("c08:cross-16384:rct{}", rct)); } }
+    // … and through EcdhInfo::open_commitment directly, every boundary position in both encodings
+    for legacy in [true, false] {
+        for n in [127u64, 128, 129, 16383, 16384, 2097152] {
+            let v = Scalar::from_bytes_mod_order(rng.arr32()); let R = Scalar::from_bytes_mod_order(rng.arr32()) * G;
+            let k = deriv_scalar(&derivation(&v, &R), n); let a = *rng.pick(&amounts);
+            let y = if legacy { Scalar::from_bytes_mod_order(rng.arr32()) } else { compact_mask(&k) };
+            let C = enc(&commitment(&y, a));
+            let e: Vec<u8> = if legacy { let (m, x) = legacy_encode(&k, &y, a); cat(&[&m, &x]) } else { compact_encode(&k, a).to_vec() };
+            let head = format!("c08_open {} {} {} ", hex(v.as_bytes()), vS, hex(&enc(&R)));
+            let got = o.op(format!("{}{} {} {}", head, n, hex(&e), hex(&C)), true);
+            let want = format!("ok {} {} {}", a, hex(y.as_bytes()), hex(&C));
+            o.direct(got == want, "open_commitment at a multi-byte-varint position = (a, y, C)", format!("a={} legacy={} n={}", a, legacy, n), got, want);
+            // the neighbouring position has another shared scalar: must not open
+            let got2 = o.op(format!("{}{} {} {}", head, n + 1, hex(&e), hex(&C)), true);
+            o.direct(got2 == "none", "open_commitment at the neighbouring position does not open", format!("legacy={} n={}+1", legacy, n), got2, "none".into());
+            o.stat(if legacy { "position-boundary:legacy" } else { "position-boundary:compact" });
         }
     }
     o.notes.push("c08_open roundtrips: (amount, mask, secret) × {legacy, compact}, amounts 0, 2^k-1, 2^k, 2^k+1, 2^64-1; corrupt: one flipped bit in ecdh / commitment, non-canonical commitment encodings, commitment to another amount".into());
